@@ -7,9 +7,13 @@ import (
 	"math"
 	"os"
 	"os/exec"
+	"runtime"
 	"sort"
 	"strconv"
 	"strings"
+	"time"
+
+	ysgo "github.com/remieven/ysgo"
 
 	"github.com/remieven/ysgo/variable"
 	"github.com/remieven/ysgo/verifharness/core"
@@ -72,7 +76,7 @@ func (c09) Thresholds(tier string) map[string]int64 {
 }
 
 func (c09) Rule() string {
-	return "case = one generated program that uses dice, random and random_range in lines, if conditions, option conditions, set statements and computed jump targets, one seed over [0-9a-z] (lengths 1-40: single characters, all zeros, long seeds that overflow the base-36 accumulation) and one PRNG choice policy. The case is executed: twice in-process back to back; once more in-process after 1-20 unrelated runners (other seeds, the empty seed) were created and stepped; and in 3 fresh processes per chunk of cases (GOMAXPROCS 1 / 4 / 16, executing the chunk forwards, backwards and shuffled, so that 'what ran before' differs). Oracle: all executions have the same SHA-256 digest over every element (node, text, tags, attribute list, options and flags), every error text and the final GetValues(). Range sub-workload per case: 70 captured draws with bounds incl. dice(1), a == b, negative bounds and spans up to 2^31, with the case's seed or the empty seed: dice(n) is an integer in [1,n], random_range(a,b) an integer in [a,b], random() in [0,1). Non-trivial: the trace has >=3 random draw sites and the program branches on a draw. Distinct by hash of scripts+seed+choice policy."
+	return "case = one generated program that uses dice, random and random_range in lines, if conditions, option conditions, set statements and computed jump targets (bounds up to 9*10^15, so spans beyond 2^31 and 2^32 occur), one program in three with a line that fails on an unknown variable (error texts are part of the digest), one seed over [0-9a-z] (lengths 1-40: single characters, all zeros, long seeds that overflow the base-36 accumulation) and one PRNG choice policy. The case is executed: twice in-process back to back; once more in-process after 1-20 unrelated runners (other seeds, the empty seed) were created and stepped; and in 3 fresh processes per chunk of cases (GOMAXPROCS 1 / 4 / 16, executing the chunk forwards, backwards and shuffled, so that 'what ran before' differs). Oracle: all executions have the same SHA-256 digest over every element (node, text, tags, attribute list, options and flags), every error text and the final GetValues(). Range sub-workload per case: 70 captured draws with bounds incl. dice(1), a == b, negative bounds and spans up to 2^31, with the case's seed or the empty seed: dice(n) is an integer in [1,n], random_range(a,b) an integer in [a,b], random() in [0,1). Non-trivial: the trace has >=3 random draw sites and the program branches on a draw. Distinct by hash of scripts+seed+choice policy."
 }
 
 func (c09) Assumptions() []string {
@@ -90,6 +94,15 @@ type c09Item struct {
 	ChoiceSeed uint64   `json:"choice_seed"`
 	Digest     string   `json:"digest"`
 	Summary    string   `json:"summary"`
+	// used by C18 only
+	Tag     string `json:"tag,omitempty"`     // the words the "later" command must receive
+	Restore bool   `json:"restore,omitempty"` // the runner is first restored from a snapshot of its start node
+}
+
+// execOpts are the extras C18 adds to an execution.
+type execOpts struct {
+	tag     string
+	restore *ysgo.Snapshot
 }
 
 var c09Batch []c09Item
@@ -101,6 +114,10 @@ func c09Exec(scripts []string, seed string, choiceSeed uint64) (string, string) 
 
 // c09ExecHooked calls hook(step) after the runner was created (step 0) and after every Next.
 func c09ExecHooked(scripts []string, seed string, choiceSeed uint64, hook func(step int)) (string, string) {
+	return c09ExecOpts(scripts, seed, choiceSeed, hook, execOpts{})
+}
+
+func c09ExecOpts(scripts []string, seed string, choiceSeed uint64, hook func(step int), eo execOpts) (string, string) {
 	st := mon.NewRecStorer()
 	rr, err, pan := mon.Create(st, seed, scripts)
 	if pan != "" {
@@ -111,6 +128,35 @@ func c09ExecHooked(scripts []string, seed string, choiceSeed uint64, hook func(s
 	}
 	null := &mon.HostLog{}
 	rr.Install(mon.FlowFuncs(null), mon.FlowCmds(null))
+	if eo.tag != "" {
+		// a raw command handler that looks at its arguments LATER, from a goroutine of its own (it may keep
+		// them until it reports completion): they must still be the words written in this runner's script
+		tag := eo.tag
+		rr.DR.AddCommand("later", func(args []*variable.Value) <-chan error {
+			ch := make(chan error, 1)
+			go func() {
+				runtime.Gosched()
+				time.Sleep(30 * time.Microsecond)
+				if len(args) != 3 {
+					ch <- fmt.Errorf("later: %d arguments, want 3", len(args))
+					return
+				}
+				for _, a := range args {
+					if a == nil || a.String == nil || *a.String != tag {
+						ch <- fmt.Errorf("later: an argument is not the word %s written in the script", tag)
+						return
+					}
+				}
+				ch <- nil
+			}()
+			return ch
+		})
+	}
+	if eo.restore != nil {
+		if err := rr.DR.RestoreAt(eo.restore); err != nil {
+			return "restore-failed:" + err.Error(), err.Error()
+		}
+	}
 	if hook != nil {
 		hook(0)
 	}
@@ -244,6 +290,17 @@ func (p c09) Run(c *core.Ctx) {
 	cfg.Tracking = false
 	cfg.Unicode = false
 	prog := gen.Flow(r, cfg)
+	if r.Chance(1, 3) {
+		// a line that fails (unknown variable) somewhere in the start node: error texts are part of the
+		// digest, and the run goes on after the error
+		b := &prog.Nodes[0].Body
+		at := r.Range(min(8, len(*b)), len(*b))
+		bad := &hast.Stmt{K: hast.SLine, Parts: []hast.Part{hast.Lit("oops "), hast.Inl(hast.Var(r.Pick("undefined_var", "nope")))}}
+		nb := append([]*hast.Stmt{}, (*b)[:at]...)
+		nb = append(nb, bad)
+		*b = append(nb, (*b)[at:]...)
+		c.Feature("program-with-a-failing-line")
+	}
 	scripts := hast.Render(prog, hast.L0())
 	seed := c09Seed(c)
 	choiceSeed := r.U64()
@@ -491,9 +548,18 @@ func c09Aux(args []string) int {
 	}
 	out := map[string][2]string{}
 	for _, it := range batch {
-		d, s := c09Exec(it.Scripts, it.Seed, it.ChoiceSeed)
+		eo := execOpts{tag: it.Tag}
+		if it.Restore {
+			eo.restore = startSnapshot()
+		}
+		d, s := c09ExecOpts(it.Scripts, it.Seed, it.ChoiceSeed, nil, eo)
 		out[strconv.Itoa(it.Idx)] = [2]string{d, s}
 	}
 	json.NewEncoder(os.Stdout).Encode(out)
 	return 0
+}
+
+// startSnapshot is a snapshot of the start node of a C18 program (its nodes are called N1, N2, …).
+func startSnapshot() *ysgo.Snapshot {
+	return &ysgo.Snapshot{CurrentNode: "N1", Variables: map[string]variable.Value{}, VisitedNodes: map[string]int{}}
 }
